@@ -225,13 +225,15 @@ URIS = [
     ('udp6://[fe80::1]:6363', ('udp', 'fe80::1', 6363)), ('UDP4://h:9', ('udp', 'h', 9)),
     ('ws://localhost:9696', None), ('wss://example.com/ws', None), ('http://example.com', None), ('', None),
     ('localhost:6363', None), ('ether://[01:00:5e:00:17:aa]', None), ('tcp5://h:1', None), ('dev://eth0', None), ('unixx:///x', None),
+    ('tcps://h:1', None), ('udplite://h', None), ('uni:///x', None), ('unix-stream:///x', None), ('tcp46://h', None),
 ]
 
 
 def check_faces(ctx, rng):
     uris = list(URIS)
     for _ in range(ctx.n(200, 5000)):
-        scheme = rng.choice(['tcp', 'tcp4', 'tcp6', 'udp', 'udp4', 'udp6', 'ws', 'quic', 'ftp', 'tcpx', 'Tcp', 'UDP6'])
+        scheme = rng.choice(['tcp', 'tcp4', 'tcp6', 'udp', 'udp4', 'udp6', 'ws', 'quic', 'ftp', 'tcpx', 'Tcp', 'UDP6', 'tcps', 'tcp46', 'tcp+tls',
+                             'udplite', 'udp5', 'udp-dev', 'xtcp', 'tc', 'ud', 'unixs', 'tcp4x', 'udp6.1'])
         host = rng.choice(['h', 'a.b.c', '1.2.3.4', '[::1]', '[2001:db8::1]', 'localhost'])
         port = rng.choice([None, 1, 80, 6363, 6364, 65535, rng.randint(1, 65535)])
         uri = f'{scheme}://{host}' + (f':{port}' if port else '')
